@@ -955,7 +955,7 @@ func (g *gen) concurrent() Plan {
 	rounds := g.r.Range(1, 2)
 	for rd := 0; rd < rounds; rd++ {
 		// A: many documents with long bodies; B: one short document; sometimes C in between
-		spec := GenSpec{Seed: g.r.U64(), N: g.r.Range(25, 70), MinLen: 40, MaxLen: 160, FirstID: g.nextID + 1}
+		spec := GenSpec{Seed: g.r.U64(), N: g.r.Range(8, 20), MinLen: 20, MaxLen: 60, FirstID: g.nextID + 1}
 		a := spec.docs()
 		g.nextID += len(a)
 		group := []int{len(p.Bulks)}
